@@ -152,6 +152,31 @@ func (p *Program) funcValues(v ssa.Value, depth int, params bool) []*ssa.Functio
 	case *ssa.UnOp:
 		switch a := x.X.(type) {
 		case *ssa.IndexAddr:
+			// element of a local slice/array literal of functions
+			var arr ssa.Value
+			switch base := a.X.(type) {
+			case *ssa.Slice:
+				arr = base.X
+			case *ssa.Alloc:
+				arr = base
+			}
+			if al, ok := arr.(*ssa.Alloc); ok {
+				var out []*ssa.Function
+				if refs := al.Referrers(); refs != nil {
+					for _, rf := range *refs {
+						if ia, ok := rf.(*ssa.IndexAddr); ok {
+							if irefs := ia.Referrers(); irefs != nil {
+								for _, ir := range *irefs {
+									if st, ok := ir.(*ssa.Store); ok && st.Addr == ssa.Value(ia) {
+										out = append(out, p.funcValues(st.Val, depth+1, params)...)
+									}
+								}
+							}
+						}
+					}
+				}
+				return out
+			}
 			// element of a package-level slice/array of functions
 			switch base := a.X.(type) {
 			case *ssa.UnOp:
